@@ -16,26 +16,34 @@ def build(tier):
     shards = [(0, 2, 3), (1, 3, 4), (2, 2, 3)] if quick else [(0, 4, 4), (1, 4, 6), (2, 3, 4), (3, 2, 3)]
     for (n, k, l) in shards:
         obs.append(vf.CH(f"C01.a clean canonical n={n} k<={k} L<={l}", "c01_clean.py",
-                         dict(N=n, K=k, L=l, LEADERLESS=False, FIRSTLINE=False, NCP=n * l, MT=tup(n), IT=tup(k), PAD=0, PADIND=""),
+                         dict(N=n, K=k, L=l, LEADERLESS=False, FIRSTLINE=False, NOSPACE=False, NCP=n * l, MT=tup(n), IT=tup(k), PAD=0, PADIND=""),
                          timeout=240 if quick else 2400, encodes=enc,
                          symbolic="indent in {' ','\\t'}^<=k; n texts of <=L arbitrary code points (no LF, CR, ']]'); all lengths symbolic",
                          bound=f"n={n}, k<={k}, L<={l}"))
     for (n, l) in ([(1, 3), (2, 3)] if quick else [(1, 5), (2, 4), (3, 3)]):
         obs.append(vf.CH(f"C01.b clean leaderless n={n} L<={l}", "c01_clean.py",
-                         dict(N=n, K=0, L=l, LEADERLESS=True, FIRSTLINE=False, NCP=n * l, MT=tup(n), IT=tup(0), PAD=0, PADIND=""),
+                         dict(N=n, K=0, L=l, LEADERLESS=True, FIRSTLINE=False, NOSPACE=False, NCP=n * l, MT=tup(n), IT=tup(0), PAD=0, PADIND=""),
                          timeout=240 if quick else 2400, encodes=enc,
                          symbolic="n texts, first char a letter, rest arbitrary code points", bound=f"n={n}, L<={l}, unindented"))
     # text on the opening line ('#[[[ text'): it is the first line of the documentation, whatever the indentation of the block
     for (n, k, l) in ([(2, 2, 3)] if quick else [(2, 3, 4), (3, 2, 3)]):
         obs.append(vf.CH(f"C01.a clean canonical n={n} k<={k} L<={l}, first text on the opening line", "c01_clean.py",
-                         dict(N=n, K=k, L=l, LEADERLESS=False, FIRSTLINE=True, NCP=n * l, MT=tup(n), IT=tup(k), PAD=0, PADIND=""),
+                         dict(N=n, K=k, L=l, LEADERLESS=False, FIRSTLINE=True, NOSPACE=False, NCP=n * l, MT=tup(n), IT=tup(k), PAD=0, PADIND=""),
                          timeout=240 if quick else 2400, encodes=enc,
                          symbolic="indent in {' ','\\t'}^<=k; n texts of <=L arbitrary code points (no LF, CR, ']]'), the first one (non-empty) on the opening line; all lengths symbolic",
                          bound=f"n={n}, k<={k}, L<={l}"))
+    obs.append(vf.CH("C01.a clean n=2 k<=2 L<=3, body lines written '#'+text (no space after the leader)", "c01_clean.py",
+                     dict(N=2, K=2, L=3, LEADERLESS=False, FIRSTLINE=False, NOSPACE=True, NCP=6, MT=tup(2), IT=tup(2), PAD=0, PADIND=""),
+                     timeout=240 if quick else 2400, encodes=enc,
+                     symbolic="indent; 2 texts of <=3 arbitrary code points whose first character is not a space (a TAB for instance)", bound="n=2, k<=2, L<=3"))
+    o = vf.CH("C01.a [known finding D22 isolated] body line written '#'+text whose text starts with '#', '[' or ']'", "c01_clean.py",
+              dict(N=1, K=1, L=2, LEADERLESS=False, FIRSTLINE=False, NOSPACE="D22", NCP=2, MT=tup(1), IT=tup(1), PAD=0, PADIND=""),
+              timeout=240 if quick else 1200, encodes=enc, symbolic="indent; one text of <=2 code points starting with '#', '[' or ']'", bound="n=1, k<=1, L<=2", finding="D22")
+    obs.append(o)
     # long lines: every non-empty text carries a concrete filler (200 / 1000 chars) between its symbolic characters
     for pad in ((200,) if quick else (200, 1000)):
         obs.append(vf.CH(f"C01.a clean canonical n=2 k<=2 L<=3 with {pad}-char filler (long lines)", "c01_clean.py",
-                         dict(N=2, K=2, L=3, LEADERLESS=False, FIRSTLINE=False, NCP=6, MT=tup(2), IT=tup(2), PAD=pad, PADIND=""), timeout=240 if quick else 2400, encodes=enc,
+                         dict(N=2, K=2, L=3, LEADERLESS=False, FIRSTLINE=False, NOSPACE=False, NCP=6, MT=tup(2), IT=tup(2), PAD=pad, PADIND=""), timeout=240 if quick else 2400, encodes=enc,
                          symbolic="as C01.a; lines of 2-3 symbolic characters around a concrete filler", bound=f"n=2, k<=2, line length up to {pad + 3}"))
         obs.append(vf.CH(f"C01.c pair function+cpp_member with {pad}-char filler (long lines)", "c01_pair.py",
                          dict(K1="function", K2="cpp_member", LENS1=(2, 0, 1), LENS2=(1,), IND="  ", NCP=4, PAD=pad), timeout=240 if quick else 1200, encodes=ENC_TEXT,
@@ -43,11 +51,11 @@ def build(tier):
     # deeply indented blocks: a concrete indentation prefix (48 spaces / 40 tabs; thorough also 200) before the symbolic indent characters
     for padind in ((" " * 48, chr(9) * 40) if quick else (" " * 48, chr(9) * 40, " " * 200, (" " + chr(9)) * 60)):
         obs.append(vf.CH(f"C01.a clean canonical n=2 k<=2 L<=3 block indented by {len(padind)} more characters", "c01_clean.py",
-                         dict(N=2, K=2, L=3, LEADERLESS=False, FIRSTLINE=False, NCP=6, MT=tup(2), IT=tup(2), PAD=0, PADIND=padind), timeout=240 if quick else 2400, encodes=enc,
+                         dict(N=2, K=2, L=3, LEADERLESS=False, FIRSTLINE=False, NOSPACE=False, NCP=6, MT=tup(2), IT=tup(2), PAD=0, PADIND=padind), timeout=240 if quick else 2400, encodes=enc,
                          symbolic="as C01.a", bound=f"n=2, indentation {len(padind)}..{len(padind) + 2} characters"))
     for padind in ((" " * 6, chr(9) * 7) if quick else (" " * 6, chr(9) * 7, " " * 48)):
         obs.append(vf.CH(f"C01.a clean canonical n=2 k<=2 L<=3, first text on the opening line, block indented by {len(padind)} more characters", "c01_clean.py",
-                         dict(N=2, K=2, L=3, LEADERLESS=False, FIRSTLINE=True, NCP=6, MT=tup(2), IT=tup(2), PAD=0, PADIND=padind), timeout=240 if quick else 2400, encodes=enc,
+                         dict(N=2, K=2, L=3, LEADERLESS=False, FIRSTLINE=True, NOSPACE=False, NCP=6, MT=tup(2), IT=tup(2), PAD=0, PADIND=padind), timeout=240 if quick else 2400, encodes=enc,
                          symbolic="as C01.a", bound=f"n=2, indentation {len(padind)}..{len(padind) + 2} characters"))
     kinds = prog_kinds.KINDS
     pairs = [(kinds[i], kinds[(i + 1) % len(kinds)]) for i in range(len(kinds))] if quick else [(a, b) for a in kinds for b in kinds]
